@@ -669,14 +669,14 @@ func libWatchdog() (stop func()) {
 	return func() { close(done) }
 }
 
-// libTimeouts counts calls that did not return within libBudget; after three of them the remaining
-// inputs are skipped (each abandoned call keeps a core busy).
+// libTimeouts counts calls that did not return within libBudget; after the first one the remaining
+// inputs are skipped (an abandoned call keeps a core busy and may keep allocating).
 var libTimeouts int32
 
 const libBudget = 20 * time.Second
 
 func libCall(slot int, input string, entry string, f func() error) libLine {
-	if atomic.LoadInt32(&libTimeouts) >= 3 {
+	if atomic.LoadInt32(&libTimeouts) >= 1 {
 		return libLine{entry, "skipped", ""}
 	}
 	libInput[slot].Store(entry + ": " + input)
